@@ -63,7 +63,7 @@ def graph_run(prop, tier, seed, module, mc_module, cfgs, required_tags, level_no
                 samples.append({"cfg": cfg, "op": e["o"], "expected_state_after": e["ds"]})
         for d in rep["divergences"]:
             sig = f"{module}:{d['tag']}:{d['kind']}:{norm_field(d['detail'])}"
-            kf = next((k for k in known["findings"] if k["signature"] == sig), None)
+            kf = next((k for k in known["findings"] if sig.startswith(k["signature"])), None)
             if kf:
                 known_hits.setdefault(sig, {"sig": sig, "what": f"{kf['what']} [{sig}] (finding of {kf['property']})",
                                             "count": 0})
@@ -153,11 +153,11 @@ PROPS = {
     "C04": simprop(scenarios.c04, ["C01", "C04", "C06"], {"waithist": 10, "data": 50, "gap": 5, "final": 30}),
     "C27": simprop(scenarios.c27, ["C01", "C27", "C31", "C06"], {"blockedwrite": 20, "data": 50}),
     "C29": simprop(scenarios.c29, ["C01", "C29", "C06"], {"data": 30, "final": 30}),
-    "C18": rc("C18", {"quick": C("C18", "C18b", "C18c"), "thorough": C("C18", "C18b", "C18c")},
+    "C18": rc("C18", {"quick": C("C18", "C18b", "C18c", "C18d"), "thorough": C("C18", "C18b", "C18c", "C18d")},
               ["history:keep-last-replaces-oldest"]),
-    "C19": rc("C19", {"quick": C("C19"), "thorough": C("C19")}, ["limits:rejected"]),
+    "C19": rc("C19", {"quick": C("C19", "C19b", "C19c"), "thorough": C("C19", "C19b", "C19c")}, ["limits:rejected"]),
     "C20": rc("C20", {"quick": C("C20"), "thorough": C("C20")}, ["access", "access:specific-instance", "access:unknown-instance"]),
-    "C21": rc("C21", {"quick": C("C21"), "thorough": C("C21")}, ["order:inserted-before-later-timestamp"]),
+    "C21": rc("C21", {"quick": C("C21", "C21b", "C21c"), "thorough": C("C21", "C21b", "C21c")}, ["order:inserted-before-later-timestamp"]),
     "C22": rc("C22", {"quick": C("C22", "C22b"), "thorough": C("C22", "C22b")},
               ["state:rebirth", "state:unregister-while-other-writers-remain"]),
     "C23": rc("C23", {"quick": C("C23"), "thorough": C("C23")},
